@@ -120,8 +120,36 @@ CoreJetOps == {"low", "high", "one", "complement", "and", "or", "xor", "maj", "x
                "full_multiply", "div_mod", "divide", "modulo", "divides"}
 HasMeaning(name) == name \in ClosedFormJets /\ JetOpTable[name].op \in CoreJetOps
 
-\* evaluation of a jet call at source level; verify is the only failing jet of the core set
-JetEval(name, vs) ==
+\* ---- transaction environment (the part the lock-time jets read) ---------------------------
+\* env = [lock |-> 32 bits (nLockTime), seq |-> 32 bits (nSequence of the single input)], version 2
+DummyEnv == [lock |-> ZeroBits(32), seq |-> OneBits(32)]
+EnvJets == {"tx_is_final", "tx_lock_height", "tx_lock_time", "tx_lock_distance", "tx_lock_duration",
+            "check_lock_height", "check_lock_time", "check_lock_distance", "check_lock_duration",
+            "lock_time", "current_sequence"}
+Threshold500M == BitsOfNat(500000000, 32)
+EnvFinal(env) == env.seq = OneBits(32)
+EnvLockHeight(env) == IF ~EnvFinal(env) /\ LtBits(env.lock, Threshold500M) THEN env.lock ELSE ZeroBits(32)
+EnvLockTime(env) == IF ~EnvFinal(env) /\ ~LtBits(env.lock, Threshold500M) THEN env.lock ELSE ZeroBits(32)
+\* BIP 68: bit 31 disables the relative lock, bit 22 selects time (512 s units) instead of blocks
+EnvDistance(env) == IF env.seq[1] = 1 \/ env.seq[10] = 1 THEN ZeroBits(16) ELSE SubSeq(env.seq, 17, 32)
+EnvDuration(env) == IF env.seq[1] = 1 \/ env.seq[10] = 0 THEN ZeroBits(16) ELSE SubSeq(env.seq, 17, 32)
+EnvJetEval(name, vs, env) ==
+  CASE name = "tx_is_final" -> VBool(EnvFinal(env))
+    [] name = "tx_lock_height" -> VU(EnvLockHeight(env))
+    [] name = "tx_lock_time" -> VU(EnvLockTime(env))
+    [] name = "tx_lock_distance" -> VU(EnvDistance(env))
+    [] name = "tx_lock_duration" -> VU(EnvDuration(env))
+    [] name = "lock_time" -> VU(env.lock)
+    [] name = "current_sequence" -> VU(env.seq)
+    [] name = "check_lock_height" -> IF LeBits(vs[1].bits, EnvLockHeight(env)) THEN VUnit ELSE FAIL
+    [] name = "check_lock_time" -> IF LeBits(vs[1].bits, EnvLockTime(env)) THEN VUnit ELSE FAIL
+    [] name = "check_lock_distance" -> IF LeBits(vs[1].bits, EnvDistance(env)) THEN VUnit ELSE FAIL
+    [] name = "check_lock_duration" -> IF LeBits(vs[1].bits, EnvDuration(env)) THEN VUnit ELSE FAIL
+
+\* evaluation of a jet call at source level
+JetEvalEnv(name, vs, env) ==
   IF name = "verify" THEN (IF vs[1].bv THEN VUnit ELSE FAIL)
+  ELSE IF name \in EnvJets THEN EnvJetEval(name, vs, env)
   ELSE JetMeaning(name, vs)
+JetEval(name, vs) == JetEvalEnv(name, vs, DummyEnv)
 =============================================================================
